@@ -1,6 +1,6 @@
 #!/bin/sh
-# usage: tools/saveseed2.sh Cxx : copy the round-2 seeded change from /tmp/seed2/Cxx into /verif/seeded/Cxx-2
-ID=$1; W=/tmp/seed2/$ID; D=/verif/seeded/$ID-2
+# usage: tools/saveseed.sh <round> Cxx : copy the seeded change of round <round> from /tmp/seed<round>/Cxx into /verif/seeded/Cxx-<round>
+RD=$1; ID=$2; W=/tmp/seed$RD/$ID; D=/verif/seeded/$ID-$RD
 mkdir -p $D
 git -C $W diff -- awesomeyaml > $D/patch.diff
 for f in $(git -C $W status --short | grep '^??' | awk '{print $2}'); do cp -r $W/$f $D/; done
